@@ -49,6 +49,22 @@ def window_of(c, bf, t):
     return None
 
 
+def fallback_windows(c):
+    """window constants of the get_rx_datarate lookups that feed an `unwrap` in Mac::build_rf_config (the fallback for a data rate
+    the region does not define); used by C04: the unwrap is safe only for Window::_2, whose rate every region defines"""
+    bf = c.bf(D + 'mac::Mac::build_rf_config')
+    out = []
+    for bb, t in bf.calls():
+        if callee_name(t).endswith('Option::unwrap'):
+            v = term_of_operand(bf, t.args[0])
+            gr = call_site(v, 'get_rx_datarate')
+            if gr is not None and gr[2]:
+                out.append(window_of(c, bf, gr[2][-1]) or term_str(gr[2][-1])[:40])
+            else:
+                out.append('no get_rx_datarate lookup')
+    return out
+
+
 def call_site(t, suffix):
     """the call term (with its block index) for `suffix` inside t"""
     return rules.find_in_term(t, lambda y: isinstance(y, tuple) and len(y) == 4 and y[0] == 'call' and y[1].endswith(suffix))
@@ -186,6 +202,7 @@ def run(tier):
     bf = c.bf(D + 'mac::Mac::build_rf_config')
     aggs = [s for b in bf.body.blocks if not b.cleanup for s in b.stmts if s.k == 'assign' and s.rv.k == 'agg' and (s.rv.d.get('adt') or '').endswith('radio::RfConfig')]
     okb = len(aggs) == 1
+    kinds = []
     if okb:
         fl = dict(zip(aggs[0].rv.d['fields'], [peel(term_of_operand(bf, o)) for o in aggs[0].rv.ops]))
         bbp = fl.get('bb')
@@ -204,11 +221,15 @@ def run(tier):
                     if v[0] == 'field' and isinstance(v[1], tuple) and v[1][0] == 'as' and v[1][2] == 'Some' and has_call(v, 'Configuration::get_datarate'):
                         kinds.append('some')
                     elif is_call(v, 'Option::unwrap') and has_call(v, 'Configuration::get_datarate') and has_call(v, 'get_rx_datarate'):
-                        kinds.append('fallback')
+                        # the fallback is the regional RX2 default: its window argument is the constant Window::_2 (with the
+                        # window being configured the lookup would repeat the undefined rate and the unwrap would panic)
+                        gr = call_site(v, 'get_rx_datarate')
+                        wv = window_of(c, bf, gr[2][-1]) if gr is not None and gr[2] else None
+                        kinds.append('fallback' if wv == '_2' else 'fallback-window:%s' % (wv or term_str(gr[2][-1])[:40] if gr else None))
                     else:
                         kinds.append('other:' + term_str(v)[:60])
                 okb = sorted(kinds) == ['fallback', 'some']
-    res.require(okb, 'C10:build_rf_config:defined-datarate', 'a window RfConfig is not (given frequency, modulation of a data rate the region defines)', bf.body.path,
+    res.require(okb, 'C10:build_rf_config:defined-datarate', 'a window RfConfig is not (given frequency, modulation of a data rate the region defines: the rate asked for, else the regional RX2 default get_rx_datarate(.., Window::_2)): %s' % sorted(kinds), bf.body.path,
                 'PROVENANCE(window modulation)', instance='window RfConfig = (frequency, SF/BW/max payload of region.get_datarate(dr) or of the RX2 default)')
     # TxChannel: rx1_frequency belongs to the same channel as the uplink frequency
     for fn, kind in (('<lorawan_device::region::dynamic_channel_plans::DynamicChannelPlan<R> as lorawan_device::region::RegionHandler>::select_tx_channel', 'dyn'),
